@@ -26,11 +26,13 @@ Proof. exact SynclibP.pad_slice_roundtrip. Qed.
 Example zero_extent : slice [0; 3] (pad [4; 5] (TArr [])) = TArr [] /\ wf [0; 3] (TArr []).
 Proof. split; [reflexivity|cbn; auto]. Qed.
 
-(* ---- 2. send_tensors: scalar fast path, equal-size fast path, pad / gather / trim ---- *)
+(* ---- 2. send_tensors: scalar fast path, equal-size fast path, pad / gather / trim.
+   [tens_okx fx d z t]: t is well formed, has dtype z and -- unless fx_d10 (ndim negotiation) -- ndim d;
+   with fx_d10 tensors of ANY mix of ranks are delivered, each with its own shape ---- *)
 Theorem send_tensors_lossless :
   forall (fx : fixes) (g : list nat) (dst : option nat) (ts : nat -> tensor) (d : nat) (z : Z),
     let n := List.length g in
-    n > 0 -> dst_ok fx g dst -> (forall i, i < n -> tens_ok d z (ts i)) ->
+    n > 0 -> dst_ok fx g dst -> (forall i, i < n -> tens_okx fx d z (ts i)) ->
     run_all (respond g) (map (fun i => send_tensors fx g dst i (ts i)) (seq 0 n))
     = Some (map (fun i => Ok (if receives dst i then Some (map ts (seq 0 n)) else None)) (seq 0 n)).
 Proof. exact SynclibP.send_tensors_lossless. Qed.
@@ -39,7 +41,7 @@ Proof. exact SynclibP.send_tensors_lossless. Qed.
 Theorem dst_only_receives :
   forall (fx : fixes) (g : list nat) (d : nat) (ts : nat -> tensor) (dd : nat) (z : Z),
     let n := List.length g in
-    n > 0 -> dst_ok fx g (Some d) -> (forall i, i < n -> tens_ok dd z (ts i)) ->
+    n > 0 -> dst_ok fx g (Some d) -> (forall i, i < n -> tens_okx fx dd z (ts i)) ->
     exists out, run_all (respond g) (map (fun i => send_tensors fx g (Some d) i (ts i)) (seq 0 n)) = Some out /\
       List.length out = n /\
       nth d out (Exc "") = Ok (Some (map ts (seq 0 n))) /\
@@ -111,7 +113,7 @@ Theorem ideal_family_instances :
   forall (fx : fixes) (g : list nat) (dst : option nat) (Wg : nat) (d : nat) (z : Z),
     let n := List.length g in
     n > 0 -> n <= Wg -> dst_ok fx g dst ->
-    (forall ts, (forall i, i < n -> tens_ok d z (ts i)) ->
+    (forall ts, (forall i, i < n -> tens_okx fx d z (ts i)) ->
        ideal_family fx g dst Wg (fun i => STensor (ts i)) (fun j => GT (ts j)) GEmpty) /\
     (forall vs, ideal_family fx g dst Wg (fun i => SObj (vs i)) (fun j => GO (vs j)) GEmpty) /\
     (forall xss, (forall i, i < n -> forall t, In t (xss i) -> tens_ok d z t) ->
@@ -197,7 +199,7 @@ Theorem dict_unequal_keys_refuted :
     = Some [Ok (Some out0); Ok (Some out1)]
     /\ get_key ("m","x") (nth 1 out0 []) = Some (GD [("a", sc 10)])
     /\ get_key ("m","x") (nth 0 out1 []) = Some (GD [("b", sc 1)]).
-Proof. intros fx. do 2 eexists. split; [vm_compute; reflexivity|]. split; reflexivity. Qed.
+Proof. intros [a b c []]; do 2 eexists; (split; [vm_compute; reflexivity|]); split; reflexivity. Qed.
 
 (* D9: sub-group [1;2] of a world of 3; the member with data has group rank 1, which
    _sync_dtype_and_shape hands to broadcast_object_list as a GLOBAL rank: global rank 1 is the
@@ -221,17 +223,17 @@ Qed.
 (* D10 at synclib level: a scalar on one rank and a 1-D tensor on the other: the ranks issue
    different collectives *)
 Theorem ndim_mismatch_refuted :
-  forall fx : fixes,
+  forall fx : fixes, fx_d10 fx = false ->
   run_all (respond [0;1]) (map (fun i => send_tensors fx [0;1] None i (nth i [sc 1; v1 [1;2]%Z] (sc 0))) (seq 0 2)) = None.
-Proof. intros fx. vm_compute. reflexivity. Qed.
+Proof. intros [a b c d] E. cbn in E. subst d. vm_compute. reflexivity. Qed.
 
 (* ---- 9. the repaired variant on exactly the refuted witnesses, and the headline corollaries ---- *)
-(* any duplicate-free group, any named rank d < n *)
+(* any duplicate-free group, any named rank d < n, any mix of ndims *)
 Theorem send_tensors_lossless_fixed :
-  forall (g : list nat) (dst : option nat) (ts : nat -> tensor) (d : nat) (z : Z),
+  forall (g : list nat) (dst : option nat) (ts : nat -> tensor) (z : Z),
     let n := List.length g in
     n > 0 -> NoDup g -> (match dst with Some d => d < n | None => True end) ->
-    (forall i, i < n -> tens_ok d z (ts i)) ->
+    (forall i, i < n -> wf (shp (ts i)) (dat (ts i)) /\ dt (ts i) = z) ->
     run_all (respond g) (map (fun i => send_tensors V_fixed g dst i (ts i)) (seq 0 n))
     = Some (map (fun i => Ok (if receives dst i then Some (map ts (seq 0 n)) else None)) (seq 0 n)).
 Proof. exact SynclibP.send_tensors_lossless_fixed. Qed.
@@ -251,7 +253,7 @@ Proof. exact SynclibP.list_sync_lossless_fixed. Qed.
 Theorem list_all_empty_fixed :
   exists out,
     run_all (respond [0;1])
-      (map (fun i => sync_states (mkFx true false false) [0;1] None i 2 [("m", [("x", SList [])])] [("m","x")]) (seq 0 2))
+      (map (fun i => sync_states (mkFx true false false false) [0;1] None i 2 [("m", [("x", SList [])])] [("m","x")]) (seq 0 2))
     = Some [Ok (Some out); Ok (Some out)]
     /\ get_key ("m","x") (nth 0 out []) = Some (GL []) /\ get_key ("m","x") (nth 1 out []) = Some (GL [])
     /\ run_all (respond [0;1])
@@ -282,6 +284,27 @@ Proof.
 Qed.
 
 
+(* D10 repaired (fx_d10 alone suffices): both ranks receive the scalar as a scalar and the 1-D
+   tensor as a 1-D tensor *)
+Theorem ndim_mismatch_fixed :
+  let ts i := nth i [sc 1; v1 [1;2]%Z] (sc 0) in
+  run_all (respond [0;1]) (map (fun i => send_tensors (mkFx false false false true) [0;1] None i (ts i)) (seq 0 2))
+  = Some [Ok (Some [sc 1; v1 [1;2]%Z]); Ok (Some [sc 1; v1 [1;2]%Z])]
+  /\ run_all (respond [0;1]) (map (fun i => send_tensors V_fixed [0;1] None i (ts i)) (seq 0 2))
+     = Some [Ok (Some [sc 1; v1 [1;2]%Z]); Ok (Some [sc 1; v1 [1;2]%Z])]
+  /\ (forall i, i < 2 -> tens_okx V_fixed 0 0 (ts i)).
+Proof.
+  split; [vm_compute; reflexivity|]. split; [vm_compute; reflexivity|].
+  intros i Hi. destruct i as [|[|i]]; try lia; (split; [cbn; auto|split; [reflexivity|left; reflexivity]]).
+Qed.
+
+(* three ranks, ndims 0 / 2 / 1 incl. a zero extent, rank 2 receives *)
+Example ndim_mix_example :
+  let ts i := nth i [sc 7; ex_ts 1; v1 [1;2;3]%Z] (sc 0) in
+  run_all (respond [0;1;2]) (map (fun i => send_tensors V_fixed [0;1;2] (Some 2) i (ts i)) (seq 0 3))
+  = Some [Ok None; Ok None; Ok (Some [sc 7; ex_ts 1; v1 [1;2;3]%Z])].
+Proof. vm_compute. reflexivity. Qed.
+
 Print Assumptions traced_runner_agrees.
 Print Assumptions pad_slice_roundtrip.
 Print Assumptions send_tensors_lossless.
@@ -302,3 +325,4 @@ Print Assumptions list_sync_lossless_fixed.
 Print Assumptions list_all_empty_fixed.
 Print Assumptions subgroup_root_fixed.
 Print Assumptions subgroup_dst_fixed.
+Print Assumptions ndim_mismatch_fixed.
